@@ -52,5 +52,8 @@ func VerifReaderState(r io.Reader) (c VerifReaderCounters, ok bool) {
 // VerifEvent re-exports the leaf event record of the Writer (see Writer.VerifRecord).
 type VerifEvent = deflate.VerifEvent
 
+// VerifTok re-exports a decoded LZ77 token (see VerifEvent.New).
+type VerifTok = deflate.VerifTok
+
 // VerifWriterCounters re-exports the counter snapshot of the Writer (see Writer.VerifState).
 type VerifWriterCounters = deflate.VerifWriterCounters
